@@ -20,3 +20,9 @@ proof fn lemma_full_upto_members(c: Seq<u8>, hi: int)
         }
     }
 }
+
+// vacuity canary (MUST fail): clone_from_impl's precondition is satisfiable with a non-trivial source
+proof fn canary_clone_pre(s: &RawTableInner, t: &RawTableInner, j: int)
+    requires s.shape(), t.bucket_mask == s.bucket_mask, t.ctrl@.len() == s.ctrl@.len(), t.elems@.len() == s.nb(), s.elems@.len() == s.nb(),
+        0 <= j < s.nb(), s.ctrl@[j] < 0x80u8, s.nb() >= Group::WIDTH,
+    ensures false {}
